@@ -31,6 +31,9 @@ type CronRecScenario struct {
 	Policy      string    `json:"policy"`      // concurrency policy of the JobConfigs
 	Budget      mc.Budget `json:"budget"`
 	DeleteJob   bool      `json:"deleteJob,omitempty"` // a created Job may be deleted by the user (then re-requested)
+	// ReservedTemplateMeta: the job template carries furiko's own bookkeeping keys as user metadata
+	// (a stale schedule-time annotation and a foreign job-config-uid label, e.g. pasted from a Job's YAML).
+	ReservedTemplateMeta bool `json:"reservedTemplateMeta,omitempty"`
 }
 
 type cronRecMem struct {
@@ -106,6 +109,10 @@ func newCronRecWorld(scn CronRecScenario) *cronRecWorld {
 	for _, n := range scn.JobConfigs {
 		jc := newJobConfig(n, policy, 0)
 		jc.Spec.Schedule = &execution.ScheduleSpec{Cron: &execution.CronSchedule{Expression: "* * * * *"}}
+		if scn.ReservedTemplateMeta {
+			jc.Spec.Template.Annotations = map[string]string{"execution.furiko.io/schedule-time": "1604188500", "team": "x"}
+			jc.Spec.Template.Labels = map[string]string{"execution.furiko.io/job-config-uid": "uid-of-something-else", "team": "x"}
+		}
 		if _, err := b.API.Create("env", sim.JobConfigs, jc); err != nil {
 			panic(err)
 		}
